@@ -593,7 +593,7 @@ def _evaluate(task):
              ('on the copy with the values replaced by their flat positions: ', impl_t, nested_t,
               tmsg.template_data.value.decoded_values_all_subsets)]
     # -- the model
-    mr = core.Driver().batch([treq, dict(base, op='query', paths=exprs)], timeout=1200)[1]
+    mr = core.Driver().batch([treq, dict(base, op='query', paths=exprs)], timeout=3600)[1]   # long subsets on a loaded machine: 1200 s measured
     if mr.get('wire') != 'ok':
         finding('correspondence', 'wire', 'implementation wires, model: %s' % mr.get('wire'), None)
         return {'findings': findings, 'queries': [], 'counts': counts, 'n_subsets': n_sub, 'compressed': comp}
